@@ -258,6 +258,7 @@ class State:
         self.conds = []
         self.objcls = {}        # objid -> class name
         self.derived = {}       # objid of a call result -> object ids passed to that call
+        self.derived_text = {}  # objid of a call result -> ((object id, its text when the call was made), ...)
         self.tri = {}           # local name -> subset of {'none', 'falsy', 'truthy'} it may be
         self.log = []           # path-ordered events recorded by rule hooks (e.g. constructed tokens)
         self.calls = {}         # objid of a call result -> (callee name, argument values)
@@ -272,6 +273,7 @@ class State:
         s.conds = list(self.conds)
         s.objcls = dict(self.objcls)
         s.derived = dict(self.derived)
+        s.derived_text = dict(self.derived_text)
         s.tri = dict(self.tri)
         s.log = list(self.log)
         s.calls = dict(self.calls)
@@ -717,10 +719,12 @@ class Walker:
                 return TupleVal([Lin.atom(('mstart', m, g)), Lin.atom(('mend', m, g))])
         # generic call: object arguments escape unless the callee is known not to mutate them
         snap = []
+        snap_text = []
         for v in list(argv) + list(kwv.values()):
             if isinstance(v, (ObjRef, Unk)):
                 o_ = as_obj(v).id
                 snap.append((o_, as_lin(self.field(st, o_, 'start')), as_lin(self.field(st, o_, 'length'))))
+                snap_text.append((o_, self.field(st, o_, 'text')))
         pure = (isinstance(f, ast.Name) and fname in PURE_FUNCS) or (isinstance(f, ast.Attribute) and fname in PURE_METHODS)
         if fname in ('append', 'insert', 'extend', 'add'):
             for v in argv:
@@ -734,6 +738,7 @@ class Walker:
         res = Unk(('call', fresh(fname or 'call')))
         if snap:
             st.derived[res.id] = tuple(snap)
+            st.derived_text[res.id] = tuple(snap_text)
         st.calls[res.id] = (fname, tuple(argv))
         t = self.facts.method_types.get(fname)
         if t:
